@@ -61,6 +61,8 @@ impl Pool {
                             let mut connections = pool.connections.lock().unwrap();
                             let Some(connections) = connections.as_mut() else {
                                 // The transport was shut down
+                                #[cfg(feature = "verif-hooks")]
+                                crate::verif_hooks::point("maint.exit");
                                 return;
                             };
 
@@ -101,6 +103,8 @@ impl Pool {
                             let mut connections_guard = pool.connections.lock().unwrap();
                             let Some(connections) = connections_guard.as_mut() else {
                                 // The transport was shut down
+                                #[cfg(feature = "verif-hooks")]
+                                crate::verif_hooks::point("maint.exit");
                                 return;
                             };
 
@@ -142,6 +146,8 @@ impl Pool {
                         match thread_rx.recv_timeout(idle_timeout) {
                             Ok(()) | Err(mpsc::RecvTimeoutError::Disconnected) => {
                                 // The transport was shut down
+                                #[cfg(feature = "verif-hooks")]
+                                crate::verif_hooks::point("maint.exit");
                                 return;
                             }
                             Err(mpsc::RecvTimeoutError::Timeout) => {}
